@@ -99,9 +99,13 @@ func c15(c *core.Ctx) string {
 	c.Rule("R-C15-4", "PUBACK echo and handler order: processPublish's QoS1 branch writes a Puback whose MessageID is the incoming packet's; the publish entry of the packet table runs limiter, then pipeline, then processPublish; pipelineWrapper calls fn unless the pipeline failed")
 	c.NotDecided = []string{"socket-level delivery", "timing of retransmission", "queue-full drops of QoS0 copies", "findSubscribers correctness (C14)"}
 
+	c.Rule("R-C15-5", "every live session has a resend loop: each function that builds a Session starts `go s.backgroundResendPending()` on every path that returns the session (or each of its direct callers does so for the returned session)")
+	c.Rule("R-C15-6", "a registered client is removed from the broker's client table only when it is known to be disconnected (or has just been closed, or no entry exists): a live connection must stay addressable for delivery")
 	c15FanOut(c)
 	c15Session(c)
 	c15Puback(c)
+	c15ResendLoop(c)
+	c15Registry(c)
 	return "Static shape rules on the MQTT delivery path: the fan-out loop cannot be left early and publishes iff subQoS >= qos and the client is connected (path-sensitive, all paths of sendMsgToClient); QoS1 pending bookkeeping precedes the write under the session lock; PUBACK carries the incoming id; handler order limiter→pipeline→process. Not decided: socket delivery, retransmission timing, queue-full drops."
 }
 
@@ -930,4 +934,238 @@ func c15Puback(c *core.Ctx) {
 		}
 		c.Check(ok, "R-C15-4", cons+"|limiter then pipeline then process", pos(c, wrapOuter), "wrapper call reached exactly on checkPublishLimit = true", why, witness(bad)...)
 	}
+}
+
+// c15ResendLoop: R-C15-5.
+func c15ResendLoop(c *core.Ctx) {
+	pkg := c.Prog.Pkg(mq)
+	if pkg == nil {
+		return
+	}
+	sessT := namedType(c, mq, "Session")
+	if sessT == nil {
+		return
+	}
+	isResendGo := func(f *flow.Func, n ast.Node, obj types.Object) bool {
+		gs, ok := n.(*ast.GoStmt)
+		if !ok || !calleeIs(f, gs.Call, "(*"+mq+".Session).backgroundResendPending") {
+			return false
+		}
+		sel, ok := ast.Unparen(gs.Call.Fun).(*ast.SelectorExpr)
+		if !ok {
+			return false
+		}
+		// receiver is the variable, or a field path ending in a *Session assigned from it
+		root := sel.X
+		if id, ok := ast.Unparen(root).(*ast.Ident); ok {
+			return f.Info.Uses[id] == obj
+		}
+		return false
+	}
+	// startsFor: does f, on every path returning variable obj non-nil, start the loop for it?
+	startsFor := func(f *flow.Func, obj types.Object) (bool, *flow.State) {
+		res := analyze(c, f, flow.Config{NoHavoc: true, OnNode: func(st *flow.State, n ast.Node) {
+			if isResendGo(f, n, obj) {
+				st.Set("ev:resend", flow.True)
+			}
+		}})
+		if res == nil {
+			return false, nil
+		}
+		for _, ex := range res.Exits {
+			if ex.Kind != flow.ExitReturn || ex.Return == nil {
+				continue
+			}
+			returnsIt := false
+			for _, r := range ex.Return.Results {
+				if id, ok := ast.Unparen(r).(*ast.Ident); ok && f.Info.Uses[id] == obj {
+					returnsIt = true
+				}
+			}
+			if returnsIt && !ex.State.Is("ev:resend", flow.True) {
+				return false, ex.State
+			}
+		}
+		return true, nil
+	}
+	ctors := 0
+	for _, file := range pkg.Syntax {
+		for _, d := range file.Decls {
+			fd, ok := d.(*ast.FuncDecl)
+			if !ok || fd.Body == nil {
+				continue
+			}
+			f := flow.NewFunc(pkg, fd)
+			// variable assigned &Session{}
+			var obj types.Object
+			ast.Inspect(fd.Body, func(n ast.Node) bool {
+				as, ok := n.(*ast.AssignStmt)
+				if !ok || len(as.Lhs) != 1 || len(as.Rhs) != 1 {
+					return true
+				}
+				lit := litOf(as.Rhs[0])
+				if lit == nil {
+					return true
+				}
+				if tv, ok := f.Info.Types[lit]; ok && types.Identical(tv.Type, sessT) {
+					if id, ok := as.Lhs[0].(*ast.Ident); ok {
+						obj = f.Info.Defs[id]
+					}
+				}
+				return true
+			})
+			if obj == nil {
+				continue
+			}
+			ctors++
+			cons := declName(pkg, fd) + "|resend loop started for the new session"
+			ok, bad := startsFor(f, obj)
+			if ok {
+				c.Discharge("R-C15-5", cons, pos(c, fd), "go s.backgroundResendPending() on every path returning the session")
+				continue
+			}
+			// one level of callers
+			callersOK, ncallers := true, 0
+			var badCaller string
+			fnObj := pkg.TypesInfo.Defs[fd.Name]
+			for _, file2 := range pkg.Syntax {
+				for _, d2 := range file2.Decls {
+					fd2, ok := d2.(*ast.FuncDecl)
+					if !ok || fd2.Body == nil {
+						continue
+					}
+					f2 := flow.NewFunc(pkg, fd2)
+					for _, call := range calls(fd2.Body, false) {
+						if f2.Callee(call) != fnObj {
+							continue
+						}
+						ncallers++
+						// result must be bound to a variable for which the loop is started
+						var robj types.Object
+						ast.Inspect(fd2.Body, func(n ast.Node) bool {
+							if as, ok := n.(*ast.AssignStmt); ok && len(as.Rhs) == 1 && as.Rhs[0] == call && len(as.Lhs) == 1 {
+								if id, ok := as.Lhs[0].(*ast.Ident); ok {
+									robj = f2.Info.Defs[id]
+									if robj == nil {
+										robj = f2.Info.Uses[id]
+									}
+								}
+							}
+							return true
+						})
+						started := false
+						if robj != nil {
+							ast.Inspect(fd2.Body, func(n ast.Node) bool {
+								if isResendGo(f2, n, robj) {
+									started = true
+								}
+								return true
+							})
+						}
+						if !started {
+							callersOK = false
+							badCaller = declName(pkg, fd2)
+						}
+					}
+				}
+			}
+			if callersOK && ncallers > 0 {
+				c.Discharge("R-C15-5", cons, pos(c, fd), "started by every direct caller")
+			} else {
+				c.Violate("R-C15-5", cons, pos(c, fd), "a Session is created without its resend loop: unacknowledged QoS1 messages of that session are never retransmitted (not started here"+
+					map[bool]string{true: ", nor in caller " + badCaller, false: ""}[badCaller != ""]+")", witness(bad)...)
+			}
+		}
+	}
+	c.RequireCount("R-C15-5", "functions building a Session", ctors, 2)
+}
+
+// c15Registry: R-C15-6.
+func c15Registry(c *core.Ctx) {
+	pkg := c.Prog.Pkg(mq)
+	clientsF := structField(c, mq, "Broker", "clients")
+	if pkg == nil || clientsF == nil {
+		return
+	}
+	sites := 0
+	for _, file := range pkg.Syntax {
+		for _, d := range file.Decls {
+			fd, ok := d.(*ast.FuncDecl)
+			if !ok || fd.Body == nil {
+				continue
+			}
+			f := flow.NewFunc(pkg, fd)
+			isClients := func(e ast.Expr) bool {
+				sel, ok := ast.Unparen(e).(*ast.SelectorExpr)
+				if !ok {
+					return false
+				}
+				s := f.Info.Selections[sel]
+				return s != nil && s.Obj() == clientsF
+			}
+			var dels []*ast.CallExpr
+			for _, call := range calls(fd.Body, false) {
+				if b, ok := f.Callee(call).(*types.Builtin); ok && b.Name() == "delete" && len(call.Args) == 2 && isClients(call.Args[0]) {
+					dels = append(dels, call)
+				}
+			}
+			if len(dels) == 0 {
+				continue
+			}
+			// lookups `val, ok := b.clients[k]`
+			type lookup struct {
+				key     string
+				val, ok *ast.Ident
+			}
+			var lookups []lookup
+			ast.Inspect(fd.Body, func(n ast.Node) bool {
+				if as, ok := n.(*ast.AssignStmt); ok && len(as.Lhs) == 2 && len(as.Rhs) == 1 {
+					if ix, ok := ast.Unparen(as.Rhs[0]).(*ast.IndexExpr); ok && isClients(ix.X) {
+						v, _ := as.Lhs[0].(*ast.Ident)
+						o, _ := as.Lhs[1].(*ast.Ident)
+						if v != nil && o != nil {
+							lookups = append(lookups, lookup{f.Render(ix.Index), v, o})
+						}
+					}
+				}
+				return true
+			})
+			res := analyze(c, f, flow.Config{NoHavoc: true, OnCall: func(st *flow.State, call *ast.CallExpr, callee types.Object, deferred bool) {
+				if calleeIs(f, call, "(*"+mq+".Client).close") {
+					if sel, ok := ast.Unparen(call.Fun).(*ast.SelectorExpr); ok {
+						st.Set("ev:closed:"+f.Render(sel.X), flow.True)
+					}
+				}
+			}})
+			if res == nil {
+				continue
+			}
+			for _, del := range dels {
+				sites++
+				cons := declName(pkg, fd) + "|delete from Broker.clients"
+				k := f.Render(del.Args[1])
+				var lk *lookup
+				for i := range lookups {
+					if lookups[i].key == k {
+						lk = &lookups[i]
+					}
+				}
+				if lk == nil {
+					c.Violate("R-C15-6", cons, pos(c, del), "the client table entry is deleted without looking at the registered client: after a take-over the stale connection's teardown removes the new, live connection, which then receives no messages")
+					continue
+				}
+				discKey := "call:" + f.Render(lk.val) + ".disconnected()"
+				var bad *flow.State
+				for _, st := range res.At[del] {
+					if st.Is(f.VarKey(lk.ok), flow.False) || st.Is(discKey, flow.True) || st.Is("ev:closed:"+f.Render(lk.val), flow.True) {
+						continue
+					}
+					bad = st
+				}
+				c.Check(bad == nil, "R-C15-6", cons, pos(c, del), sprintf("%d states: entry absent, registered client disconnected, or just closed", len(res.At[del])),
+					"the client table entry is deleted although the registered client may be a live connection (after a take-over the new connection is dropped from delivery)", witness(bad)...)
+			}
+		}
+	}
+	c.RequireCount("R-C15-6", "delete(Broker.clients, id) sites", sites, 2)
 }
